@@ -1306,7 +1306,13 @@ class ComputeGraph(MultiDiGraph):
         expr_args = []
         for arg in expr.args:
             expr_part, args, _, _ = self._expr_to_str(arg, **kwargs)
-            expr_str = expr_str.replace(str(arg), expr_part)
+            arg_str = str(arg)
+            if arg_str not in expr_str and arg_str.startswith('-') and expr_part.startswith('-') and \
+                    f"- {arg_str[1:]}" in expr_str:
+                # a negative term of a sum is printed as `a - term`, not as `a + -term`
+                expr_str = expr_str.replace(f"- {arg_str[1:]}", f"- {expr_part[1:]}")
+            else:
+                expr_str = expr_str.replace(arg_str, expr_part)
             index_args.extend(args)
             expr_args.append(expr_part)
         var = str(expr_args[0]) if expr.args else ""
